@@ -10,6 +10,7 @@ import copy
 import io
 import json
 import random
+import re
 import sys
 import time
 import traceback
@@ -32,7 +33,7 @@ XML_STRUCT_FAULTS = [
     "text_corrupt", "text_corrupt", "text_corrupt", "attr_corrupt", "attr_corrupt", "attr_corrupt",
     "el_delete", "el_dup", "el_retag", "el_reorder", "el_move", "text_corrupt", "attr_corrupt", "attr_delete", "attr_add",
     "child_in_simple", "xsi_type_bad", "xsi_type_empty", "xsi_type_unbound", "xsi_nil_true", "xsi_nil_false", "undeclared_prefix",
-    "wrong_root", "dup_attr", "prolog_encoding", "prolog_doctype", "ns_change", "xsi_type_class", "xsi_type_class", "xsi_type_class_empty", "xsi_other_attr", "el_dup_many", "nest_self", "text_long", "attr_many",
+    "wrong_root", "dup_attr", "prolog_encoding", "prolog_doctype", "ns_change", "xsi_type_class", "xsi_type_class", "xsi_type_class_empty", "xsi_other_attr", "el_dup_many", "nest_self", "text_long", "attr_many", "insert_misc", "insert_misc", "xinclude_junk", "prolog_version", "deep_wrap",
 ]
 JSON_STRUCT_FAULTS = ["value_text", "value_text", "value_text", "key_delete", "key_rename", "key_rename", "value_junk", "value_junk", "list_wrap", "list_unwrap", "key_add", "list_grow", "nest_value", "key_hoist", "json_deep"]
 DEEP_LEVELS = [50, 400, 3000, 100000]
@@ -218,6 +219,25 @@ def apply_xml_struct_fault(data, f):
             b"<!DOCTYPE",
         ]
         return variants[f["val"] % len(variants)] + body, True
+    if k == "prolog_version":
+        ver = ["2.0", "", "11.0", "1.0abc", "1.1", "1.", "1.00", " 1.0", "01.0", "1,0"][f["val"] % 10]
+        body = data[data.find(b"?>") + 2 :] if data.startswith(b"<?xml") else data
+        return b'<?xml version="' + ver.encode() + b'"?>' + body, True
+    if k == "deep_wrap":
+        # the whole document below many levels of one element (well-formed; iterative and recursive walkers differ)
+        body = data[data.find(b"?>") + 2 :] if data.startswith(b"<?xml") else data
+        if body.lstrip().startswith(b"<!DOCTYPE"):
+            return data, False
+        depth = [200, 1200, 5000, 100000][f["val"] % 4]
+        tag = [b"a", b"n", b"x:a xmlns:x='urn:deep'"][f["idx"] % 3]
+        close = tag.split(b" ")[0]
+        if f["idx2"] % 2:
+            return b"<" + tag + b">" + (b"<" + close + b">") * depth + body + (b"</" + close + b">") * (depth + 1), True
+        # nested inside the root element instead: after the root's start tag
+        m = re.search(rb"<[A-Za-z_][^<>]*[^/<>]>", body)
+        if not m:
+            return data, False
+        return body[: m.end()] + (b"<" + close + b">") * depth + (b"</" + close + b">") * depth + body[m.end() :], True
     try:
         parser = etree.XMLParser(remove_blank_text=False, resolve_entities=False)
         root = etree.fromstring(data, parser)
@@ -249,6 +269,28 @@ def apply_xml_struct_fault(data, f):
                 sub = etree.SubElement(inner, el.tag, attrib=dict(el.attrib))
                 sub.text = el.text
                 inner = sub
+        elif k == "insert_misc":
+            # comments, processing instructions and entity references: content every XML document may carry
+            kind = f["val"] % 4
+            node = [etree.Comment(" c -- "[: 3 + f["val"] % 2]), etree.ProcessingInstruction("pi", "x='1'"), etree.Comment(""), etree.ProcessingInstruction("xml-stylesheet", "href='a.css'")][kind]
+            node.tail = ["", "tail", " "][f["idx2"] % 3]
+            if f["idx2"] % 5 == 0 and el.getparent() is not None:
+                el.addprevious(node)
+            else:
+                el.insert(f["idx2"] % (len(el) + 1), node)
+        elif k == "xinclude_junk":
+            XI = "http://www.w3.org/2001/XInclude"
+            attrs = [{}, {"parse": "bogus", "href": "x.xml"}, {"href": "nonexistent-file.xml"}, {"href": "", "xpointer": "xpointer(//*"}, {"href": "x.txt", "parse": "text", "encoding": "bogus"},
+                     {"href": "nonexistent.xml", "parse": "text"}, {"xpointer": "element(/1)"}, {"href": "#frag"}][f["val"] % 8]
+            inc = etree.Element("{%s}include" % XI, attrib=attrs, nsmap={"xi": XI})
+            if f["val"] % 3 == 0:
+                fb = etree.SubElement(inc, "{%s}fallback" % XI)
+                fb.text = "fallback text"
+            if f["idx2"] % 7 == 0:
+                fb = etree.Element("{%s}fallback" % XI, nsmap={"xi": XI})  # a stray fallback
+                el.insert(0, fb)
+            else:
+                el.insert(f["idx2"] % (len(el) + 1), inc)
         elif k == "text_long":
             el.text = ((el.text or "x") + " ") * [50, 400, 2000][f["val"] % 3]
         elif k == "attr_many":
@@ -473,7 +515,7 @@ def apply_json_struct_fault(value, f):
 # ---------------------------------------------------------------- case generation
 def gen_case(seed):
     rng = random.Random(seed)
-    decoder = rng.choice(["xml-lxml", "xml-native", "xml-lxml", "xml-native", "xml-lxml", "xml-native", "json", "json", "dict", "dict", "xml-tree-lxml", "xml-tree-native"])
+    decoder = rng.choice(["xml-lxml", "xml-native", "xml-lxml", "xml-native", "xml-lxml", "xml-native", "json", "json", "dict", "dict", "xml-tree-lxml", "xml-tree-native", "xml-src-lxml", "xml-src-native"])
     if decoder.startswith("xml"):
         name = rng.choice(sorted(Store.xml))
         n = len(Store.xml[name][0])
@@ -625,6 +667,36 @@ def documented_classes():
     return tuple(_documented)
 
 
+_DECL = re.compile(rb"^<\?xml[ \t\r\n]+version[ \t\r\n]*=[ \t\r\n]*(\"([^\"]*)\"|'([^']*)')")
+
+
+def declaration_wellformed(payload):
+    """XML 1.0 (5th ed.) production 24-26 for a document in an ASCII-compatible encoding: a judge that does not
+    ask expat. True when there is no declaration to judge."""
+    if not isinstance(payload, bytes) or not payload.startswith(b"<?xml") or payload[5:6] not in (b" ", b"\t", b"\r", b"\n"):
+        return True
+    m = _DECL.match(payload)
+    if not m:
+        return True  # left to expat
+    version = m.group(2) if m.group(2) is not None else m.group(3)
+    return re.fullmatch(rb"1\.[0-9]+", version) is not None
+
+
+def build_tree(payload, dec):
+    try:
+        if dec.endswith("lxml"):
+            from lxml import etree
+
+            return etree.fromstring(payload, etree.XMLParser(resolve_entities=False, remove_comments=False, remove_pis=False, huge_tree=True))
+        import xml.etree.ElementTree as ET
+
+        return ET.fromstring(payload, parser=ET.XMLParser(target=ET.TreeBuilder(insert_comments=True, insert_pis=True)))
+    except RecursionError:
+        raise
+    except Exception:
+        return None
+
+
 def make_decoder(case, context):
     from sim import ops as O
     from xsdata.formats.dataclass import parsers
@@ -633,6 +705,8 @@ def make_decoder(case, context):
     dec = case["decoder"]
     if dec.startswith("xml-tree-"):
         return parsers.TreeParser(config=cfg, context=context, handler=O._handlers()[dec.split("-")[2]])
+    if dec.startswith("xml-src-"):
+        return parsers.XmlParser(config=cfg, context=context, handler=O._handlers()[dec.split("-")[2]])
     if dec == "xml-lxml":
         return parsers.XmlParser(config=cfg, context=context, handler=O._handlers()["lxml"])
     if dec == "xml-native":
@@ -715,6 +789,15 @@ def run_case(case, context, meter, base_steps):
             warnings.simplefilter("ignore")
             if dec == "dict":
                 result = tool.decode(payload, clazz)
+            elif dec.startswith("xml-src-"):
+                # the caller hands over an already built tree (comments, processing instructions and unexpanded
+                # entity references kept); bytes no tree can be built from are not a case for this decoder
+                tree = build_tree(payload, dec)
+                if tree is None:
+                    meter.stop()
+                    out.update(outcome="not_a_tree", steps=0, cpu=0.0, consumed=None)
+                    return out
+                result = tool.parse(tree, clazz)
             else:
                 reader = SimReader(payload, chunks=case.get("chunks"))
                 result = tool.parse(reader, clazz)
@@ -766,7 +849,11 @@ def run_case(case, context, meter, base_steps):
     out["steps"] = steps
     out["cpu"] = time.process_time() - cpu0
     out["consumed"] = reader.pos if reader is not None else None
-    if dec in ("xml-native", "xml-tree-native") and out["outcome"] == "instance":
+    if dec in ("xml-native", "xml-tree-native") and out["outcome"] == "instance" and not declaration_wellformed(payload):
+        out["outcome"] = "accepted_malformed"
+        out["sig"] = ["accepted_malformed_declaration", dec]
+        out["detail"] = "the XML declaration does not match the grammar (VersionNum ::= '1.' [0-9]+) but the native handler returned an instance"
+    elif dec in ("xml-native", "xml-tree-native") and out["outcome"] == "instance":
         if not wellformed_judge(payload):
             out["outcome"] = "accepted_malformed"
             out["sig"] = ["accepted_malformed", dec]
@@ -831,6 +918,9 @@ def run_batch_cases(cases, emit):
             continue
         emit(("hb", i))
         out = run_case(case, context, meter, base)
+        if out["outcome"] == "not_a_tree":
+            summary["skipped"] += 1
+            continue
         summary["cases"] += 1
         summary["steps"] += out["steps"]
         oc = out["outcome"]
